@@ -163,9 +163,12 @@ def run_history(args):
 
 
 def design_level():
-    base = "CONSTANTS MaxLen = 3 NoCleanup = %s NEvents = 0\nINIT GInit\nNEXT GNext\nINVARIANT OutputIsFunctionOfModel\nINVARIANT PhaseOrder\nCHECK_DEADLOCK FALSE\n"
-    rc, ok = common.run_tlc("GenPipeline", base % "FALSE", workers=4)
-    rc, bad = common.run_tlc("GenPipeline", base % "TRUE", workers=4)
+    base = "CONSTANTS MaxLen = 2 NoCleanup = %s LastOnly = %s NEvents = 0\nINIT GInit\nNEXT GNext\nINVARIANT OutputIsFunctionOfModel\nINVARIANT PhaseOrder\nCHECK_DEADLOCK FALSE\n"
+    rc, ok = common.run_tlc("GenPipeline", base % ("FALSE", "FALSE"), workers=4)
+    rc, bad = common.run_tlc("GenPipeline", base % ("TRUE", "FALSE"), workers=4)
+    rc, bad2 = common.run_tlc("GenPipeline", base % ("FALSE", "TRUE"), workers=4)
+    if "Invariant PhaseOrder is violated" not in bad2:
+        raise common.MachineryError("GenPipeline.tla validating only the last file no longer violates PhaseOrder (vacuity)")
     if "No error has been found" not in ok:
         raise common.MachineryError("GenPipeline.tla design check failed:\n" + ok[-2000:])
     if "Invariant OutputIsFunctionOfModel is violated" not in bad:
@@ -174,7 +177,7 @@ def design_level():
 
 
 def histories(maxlen):
-    cfg = "CONSTANTS MaxLen = %d NoCleanup = FALSE NEvents = 0\nINIT GInit\nNEXT GNext\nVIEW HistView\nINVARIANT EmitHistory\nCHECK_DEADLOCK FALSE\n" % maxlen
+    cfg = "CONSTANTS MaxLen = %d NoCleanup = FALSE LastOnly = FALSE NEvents = 0\nINIT GInit\nNEXT GNext\nVIEW HistView\nINVARIANT EmitHistory\nCHECK_DEADLOCK FALSE\n" % maxlen
     rc, out = common.run_tlc("GenPipeline", cfg, workers=1)
     if "No error has been found" not in out:
         raise common.MachineryError("history enumeration failed:\n" + out[-2000:])
@@ -263,7 +266,7 @@ def check_c16(tier):
         tp = os.path.join(work, "trace.json")
         json.dump(runs, open(tp, "w"))
         nev = sum(len(r) for r in runs)
-        rc, out = common.run_tlc("GenPipeline", "CONSTANTS MaxLen = 0 NoCleanup = FALSE NEvents = %d\nINIT TInit\nNEXT TStep\nPOSTCONDITION AllConsumed\nCHECK_DEADLOCK FALSE\n" % nev,
+        rc, out = common.run_tlc("GenPipeline", "CONSTANTS MaxLen = 0 NoCleanup = FALSE LastOnly = FALSE NEvents = %d\nINIT TInit\nNEXT TStep\nPOSTCONDITION AllConsumed\nCHECK_DEADLOCK FALSE\n" % nev,
                                  env={"GEN_TRACE": tp}, heap="4g")
         if '"@DONE' not in out:
             raise common.MachineryError("GenPipeline.tla did not consume the trace:\n" + out[-2500:])
@@ -344,7 +347,7 @@ def check_c05(tier):
             labels.append((gl, cl))
         tp = os.path.join(work, "trace.json")
         json.dump([events], open(tp, "w"))
-        rc, out = common.run_tlc("GenPipeline", "CONSTANTS MaxLen = 0 NoCleanup = FALSE NEvents = %d\nINIT TInit\nNEXT TStep\nPOSTCONDITION AllConsumed\nCHECK_DEADLOCK FALSE\n" % len(events),
+        rc, out = common.run_tlc("GenPipeline", "CONSTANTS MaxLen = 0 NoCleanup = FALSE LastOnly = FALSE NEvents = %d\nINIT TInit\nNEXT TStep\nPOSTCONDITION AllConsumed\nCHECK_DEADLOCK FALSE\n" % len(events),
                                  env={"GEN_TRACE": tp}, heap="3g")
         if '"@DONE' not in out and events:
             raise common.MachineryError("GenPipeline.tla did not consume the C05 trace:\n" + out[-2500:])
